@@ -66,6 +66,8 @@ class CbScn:
 
             def cb(x):
                 calls.append(x)
+                if P.get("cb_raise_at") is not None and len(calls) - 1 == P["cb_raise_at"] and x != END:
+                    raise ValueError("the callback fails on this item")
                 if P.get("cb_close") and x == END:
                     ch.close()  # a callback may close its channel when it sees the endmarker
 
@@ -166,6 +168,13 @@ class CbScn:
             return V("pre-receive", f"receive() before setcallback returned {pre}")
         items = [c for c in calls if c != END]
         ends = [i for i, c in enumerate(calls) if c == END]
+        if P.get("cb_raise_at") is not None and P["cb_raise_at"] < len(want) - P["k"]:
+            # the callback failed on an item: that ends the channel; the requested endmarker still comes, once
+            if items != want[P["k"] :][: P["cb_raise_at"] + 1]:
+                return V("items", f"callback failing on call {P['cb_raise_at']} got {items}")
+            if len(ends) != 1 or ends[0] != len(calls) - 1:
+                return V("endmarker-count", f"after the callback had failed on an item the endmarker was delivered {len(ends)} times (calls: {calls})")
+            return None, outcome
         if P.get("local_close"):
             # a *local* close racing with in-flight items: the property promises "after the last item"
             # only for endings caused by the peer / the connection; here: no duplicates, order kept,
@@ -316,6 +325,15 @@ def run(tier: str, only=None) -> int:
                 continue  # the socket worker lives in the master's process: killing it is the C04 scenario
             P = dict(C, transport=tr, backend=be)
             harness.run_exploration(rep, PID, name, CbScn, P, {"ps": 1, "free": 0}, max_execs=cap)
+    # the callback itself fails on an item (first / second): the channel ends, the endmarker still comes once
+    for at in (0, 1):
+        for end in ("body-end", "block", "kill"):
+            for tr in ("popen", "via"):
+                name = f"cb/raise-at{at}:{end}:{tr}"
+                if only and only not in name:
+                    continue
+                P = {"n": 2, "k": 0, "end": end, "chan": "exec", "endmarker": True, "delay": 0, "cb_raise_at": at, "transport": tr, "backend": "thread"}
+                harness.run_exploration(rep, PID, name, CbScn, P, {"ps": 1, "free": 0} if tier == "quick" else {"ps": 2, "free": 1}, max_execs=cap)
     # every endmarker value, the falsy ones included: default schedule + 1 preemption
     for ev in ("none", "zero", "false", "empty"):
         for end in ("body-end", "error"):
